@@ -8,6 +8,8 @@ import (
 	"os"
 	"os/exec"
 	"path/filepath"
+	"runtime"
+	"runtime/pprof"
 	"sort"
 	"strconv"
 	"strings"
@@ -26,6 +28,7 @@ type harnessSpec struct {
 	MapPerms bool
 	Reach    []string // reachability witnesses that must be hit
 	MaxSteps int64
+	Params   map[string]int
 }
 
 type tierSpec struct {
@@ -68,6 +71,8 @@ func runCheck(args []string) int {
 	only := fs.String("only", "", "restrict to harnesses containing this substring")
 	noEvidence := fs.Bool("no-evidence", false, "do not write evidence")
 	verbose := fs.Bool("v", false, "verbose")
+	dump := fs.String("dump-violations", "", "write all violations (JSON lines) to this file")
+	cellFilter := fs.String("cell", "", "only run cells whose prefix (e.g. \"0 12\") starts with this")
 	fs.Parse(args)
 	if env := os.Getenv("VERIF_TIER"); env != "" && *tier == "" {
 		*tier = env
@@ -144,7 +149,7 @@ func runCheck(args []string) int {
 			jobs = append(jobs, job{h: h})
 			continue
 		}
-		disc.SetOptions(gosym.Options{DiscoverDepth: h.Discover, MaxDigits: h.Digits})
+		disc.SetOptions(gosym.Options{DiscoverDepth: h.Discover, MaxDigits: h.Digits, Params: h.Params})
 		r := disc.RunHarness(fn, nil, nil)
 		for _, inc := range r.Inconclusive {
 			inconclusive = append(inconclusive, h.Func+" (discover): "+inc)
@@ -159,6 +164,30 @@ func runCheck(args []string) int {
 	}
 	disc.Close()
 
+	if *cellFilter != "" {
+		var kept []job
+		for _, j := range jobs {
+			if strings.HasPrefix(strings.Trim(fmt.Sprint(j.prefix), "[]")+" ", *cellFilter+" ") {
+				kept = append(kept, j)
+			}
+		}
+		jobs = kept
+	}
+	if os.Getenv("GOSYM_MEM") != "" {
+		go func() {
+			for {
+				time.Sleep(10 * time.Second)
+				var ms runtime.MemStats
+				runtime.ReadMemStats(&ms)
+				if hp := os.Getenv("GOSYM_HEAPPROF"); hp != "" {
+					f, _ := os.Create(hp)
+					pprof.WriteHeapProfile(f)
+					f.Close()
+				}
+				fmt.Fprintf(os.Stderr, "mem: heap_alloc=%dMB heap_inuse=%dMB sys=%dMB numgc=%d\n", ms.HeapAlloc>>20, ms.HeapInuse>>20, ms.Sys>>20, ms.NumGC)
+			}
+		}()
+	}
 	// ---- run cells ----
 	nw := *workers
 	if nw > len(jobs) {
@@ -194,7 +223,7 @@ func runCheck(args []string) int {
 			defer in.Close()
 			for j := range jobCh {
 				fn := prog.FindFunc(j.h.Func)
-				in.SetOptions(gosym.Options{MaxDigits: j.h.Digits, MapOrderPerms: j.h.MapPerms, MaxSteps: j.h.MaxSteps})
+				in.SetOptions(gosym.Options{MaxDigits: j.h.Digits, MapOrderPerms: j.h.MapPerms, MaxSteps: j.h.MaxSteps, Params: j.h.Params})
 				res := in.RunHarness(fn, j.prefix, nil)
 				mu.Lock()
 				outs = append(outs, cellOut{j, res})
@@ -204,6 +233,9 @@ func runCheck(args []string) int {
 				mu.Unlock()
 			}
 			stats[w] = in.Stats
+			if os.Getenv("GOSYM_PROFILE") != "" && w == 0 {
+				in.DumpProfile(40)
+			}
 		}(w)
 	}
 	for _, j := range jobs {
@@ -218,6 +250,12 @@ func runCheck(args []string) int {
 		}
 	}
 
+	if os.Getenv("GOSYM_MEM") != "" {
+		var ms runtime.MemStats
+		runtime.GC()
+		runtime.ReadMemStats(&ms)
+		fmt.Printf("mem: heap_alloc=%dMB sys=%dMB\n", ms.HeapAlloc>>20, ms.Sys>>20)
+	}
 	// ---- aggregate ----
 	var total gosym.Stats
 	funcs := map[string]bool{}
@@ -275,6 +313,15 @@ func runCheck(args []string) int {
 		if len(samples) < 6 && len(o.res.Samples) > 0 {
 			samples = append(samples, map[string]interface{}{"harness": o.j.h.Func, "cell": o.j.prefix, "path": o.res.Samples[0]})
 		}
+	}
+	if *dump != "" {
+		f, _ := os.Create(*dump)
+		for _, v := range violations {
+			b, _ := json.Marshal(map[string]interface{}{"harness": violHarness[v], "id": v.ID, "model": v.Model, "chooses": v.Chooses, "labels": v.Labels, "notes": v.Notes})
+			f.Write(b)
+			f.WriteString("\n")
+		}
+		f.Close()
 	}
 	// vacuity guards
 	for _, h := range ts.Harnesses {
@@ -451,13 +498,14 @@ type replayFile struct {
 	Msg      string            `json:"msg"`
 	Model    map[string]int64  `json:"model"`
 	Chooses  map[string]int    `json:"chooses"`
+	Params   map[string]int    `json:"params,omitempty"`
 	Notes    map[string]string `json:"notes,omitempty"`
 	PathCond []string          `json:"path_condition,omitempty"`
 	Stack    string            `json:"stack,omitempty"`
 }
 
 func writeReplay(verif, prop, harness string, v *gosym.Violation) string {
-	rf := replayFile{Property: prop, Harness: shortHarness(harness), AssertID: v.ID, Msg: v.Msg, Model: v.Model, Chooses: v.Chooses, Notes: v.Notes, PathCond: v.PathCond, Stack: v.Stack}
+	rf := replayFile{Property: prop, Harness: shortHarness(harness), AssertID: v.ID, Msg: v.Msg, Model: v.Model, Chooses: v.Chooses, Params: v.Params, Notes: v.Notes, PathCond: v.PathCond, Stack: v.Stack}
 	b, _ := json.MarshalIndent(rf, "", " ")
 	h := sha1.Sum(b)
 	dir := filepath.Join(verif, "replays")
@@ -549,7 +597,7 @@ func validateAll(bin, repo, scratch string, vs []*gosym.ValidationSample, par in
 		go func(i int, v *gosym.ValidationSample) {
 			defer wg.Done()
 			defer func() { <-sem }()
-			rf := replayFile{Harness: shortHarness(v.Harness), Model: v.Model, Chooses: v.Chooses}
+			rf := replayFile{Harness: shortHarness(v.Harness), Model: v.Model, Chooses: v.Chooses, Params: v.Params}
 			b, _ := json.Marshal(rf)
 			mf := filepath.Join(scratch, fmt.Sprintf("val%d.json", i))
 			os.WriteFile(mf, b, 0644)
